@@ -26,6 +26,7 @@ type Input struct {
 	Other  *Graph `json:"other,omitempty"` // second graph of a pair
 	Note   string `json:"note,omitempty"`
 	Share  *Share `json:"share,omitempty"` // pointer sharing applied after construction
+	Req    *ReqCase `json:"required_ops,omitempty"` // stream required-ops
 }
 
 type run struct {
@@ -34,6 +35,9 @@ type run struct {
 	rng      *vh.RNG
 	hashes   *bufio.Writer // cases_graph.txt
 	pairs    *bufio.Writer // cases_equal.txt
+	reqs     *bufio.Writer // cases_required.txt
+	nReq     int
+	reqIdx   []int
 	inputsW  *bufio.Writer // inputs.jsonl: replayable description of every case, one per line
 	nInputs  int
 	nHash    int
@@ -520,6 +524,7 @@ func main() {
 		return bufio.NewWriterSize(f, 1<<20)
 	}
 	r.hashes, r.pairs, r.inputsW = open("cases_graph.txt"), open("cases_equal.txt"), open("inputs.jsonl")
+	r.reqs = open("cases_required.txt")
 
 	if *replay != "" {
 		raw, err := os.ReadFile(*replay)
@@ -529,12 +534,16 @@ func main() {
 		var rp struct {
 			Input Input `json:"input"`
 		}
-		if err := json.Unmarshal(raw, &rp); err != nil || rp.Input.Graph == nil {
+		if err := json.Unmarshal(raw, &rp); err == nil && rp.Input.Req != nil {
+			r.requiredCase(rp.Input.Req)
+		} else if err != nil || rp.Input.Graph == nil {
 			fmt.Println("replay file has no type graph input")
 			os.Exit(2)
 		}
 		in := rp.Input
-		if in.Other != nil && (strings.HasPrefix(in.Stream, "pairs") || strings.HasPrefix(in.Stream, "witness-equal")) {
+		if in.Req != nil {
+			// done above
+		} else if in.Other != nil && (strings.HasPrefix(in.Stream, "pairs") || strings.HasPrefix(in.Stream, "witness-equal")) {
 			r.checkPair(in.Graph, in.Other, in.Stream, in.Note, 0)
 		} else {
 			r.checkGraph(in.Graph, in.Stream, strings.HasPrefix(in.Stream, "witness-views"), in.Share)
@@ -550,13 +559,14 @@ func main() {
 	res.Extra["graph_cases"] = r.nHash
 	res.Extra["graph_cases_with_copy"] = r.nDup
 	res.Extra["pair_cases"] = r.nPair
+	res.Extra["required_ops_cases"] = r.nReq
 	res.Extra["pool_strings"] = len(r.pool.strs)
 	write := func(name, s string) {
 		if err := os.WriteFile(filepath.Join(*out, name), []byte(s), 0o644); err != nil {
 			panic(err)
 		}
 	}
-	for _, w := range []*bufio.Writer{r.hashes, r.pairs, r.inputsW} {
+	for _, w := range []*bufio.Writer{r.hashes, r.pairs, r.reqs, r.inputsW} {
 		if err := w.Flush(); err != nil {
 			panic(err)
 		}
@@ -565,7 +575,7 @@ func main() {
 		f.Close()
 	}
 	write("header.v", r.pool.header())
-	idx, _ := json.Marshal(map[string][]int{"graph": r.hashIdx, "equal": r.pairIdx})
+	idx, _ := json.Marshal(map[string][]int{"graph": r.hashIdx, "equal": r.pairIdx, "required": r.reqIdx})
 	write("case_index.json", string(idx))
 	if err := res.Write(filepath.Join(*out, "result.json")); err != nil {
 		panic(err)
